@@ -86,6 +86,10 @@ TEMPLATES = [
                     "c": {"type": "object", "title": "Trail", "description": "ends with a line break\n"},
                     "d": {"type": "object", "title": "Blank", "description": "\n\n  two blank lines first, tab\tinside  "},
                     "e": {"type": "string", "description": "  not an object:\n    kept by repr  "}}},
+    # JSON names that are a Python keyword followed by "_" (they need no renaming: the generated source omits `source=`)
+    {"type": "object", "title": "Transfer", "required": ["from_"],
+     "properties": {"from_": {"type": "string"}, "to": {"type": "string"}, "is_": {"type": "null"}, "not_": {"type": "boolean"},
+                    "window": {"properties": {"in_": {"type": "integer"}, "class_": {"type": "string"}}, "required": ["in_"]}}},
     # recorded finding K24: an allOf member (or the keywords next to a composition) that differs from Element() but serializes to {}
     {"allOf": [{"required": []}, {"type": "string"}]},
     {"properties": {}, "anyOf": [{"type": "integer"}, {"type": "null"}]},
